@@ -800,27 +800,50 @@ func (e *Env) evalCall(n *ast.CallExpr) (Val, bool) {
 				return scalar(tFalse, boolT), true
 			}
 			return scalar(boolLit(e.lockHeld(l, false, evs[len(evs)-1].Seq)), boolT), true
-		case "called", "went", "deferred":
-			kind := map[string]string{"called": "call", "went": "go", "deferred": "defer"}[id.Name]
+		case "called", "went", "deferred", "stored":
+			kind := map[string]string{"called": "call", "went": "go", "deferred": "defer", "stored": "store"}[id.Name]
 			return scalar(boolLit(len(e.matchEvents(kind, n.Args[0])) > 0), boolT), true
 		case "ncalls":
 			return scalar(intLit(int64(len(e.matchEvents("call", n.Args[0])))), types.Typ[types.Int]), true
-		case "lastret", "lastarg", "lastgoarg":
-			evs := e.matchEvents(map[bool]string{true: "go", false: "call"}[id.Name == "lastgoarg"], n.Args[0])
-			if len(evs) == 0 {
-				return e.fail("%s: no call of %s on this path", id.Name, patText(n.Args[0]))
+		case "nstores":
+			return scalar(intLit(int64(len(e.matchEvents("store", n.Args[0])))), types.Typ[types.Int]), true
+		case "lastret", "lastarg", "lastgoarg", "laststored", "prevret", "prevarg":
+			// prevret(callee, j, i): result i of the j-th call before the last one (j = 0: the last call)
+			kindOf := "call"
+			switch id.Name {
+			case "lastgoarg":
+				kindOf = "go"
+			case "laststored":
+				kindOf = "store"
 			}
-			ev := evs[len(evs)-1]
+			evs := e.matchEvents(kindOf, n.Args[0])
+			back := 0
+			rest := n.Args[1:]
+			if id.Name == "prevret" || id.Name == "prevarg" {
+				if len(rest) == 0 {
+					return e.fail("%s needs (callee, j, i)", id.Name)
+				}
+				jv, ok := e.eval(rest[0])
+				if !ok || !isNumLit(jv.T.S) {
+					return e.fail("%s: j must be a literal", id.Name)
+				}
+				back, _ = strconv.Atoi(jv.T.S)
+				rest = rest[1:]
+			}
+			if len(evs) <= back {
+				return e.fail("%s: no such call of %s on this path", id.Name, patText(n.Args[0]))
+			}
+			ev := evs[len(evs)-1-back]
 			idx := 0
-			if len(n.Args) > 1 {
-				iv, ok := e.eval(n.Args[1])
+			if len(rest) > 0 {
+				iv, ok := e.eval(rest[0])
 				if !ok || !isNumLit(iv.T.S) {
 					return e.fail("%s: index must be a literal", id.Name)
 				}
 				idx, _ = strconv.Atoi(iv.T.S)
 			}
 			src := ev.Rets
-			if id.Name != "lastret" {
+			if id.Name != "lastret" && id.Name != "prevret" {
 				src = ev.Args
 			}
 			if idx >= len(src) {
@@ -836,6 +859,41 @@ func (e *Env) evalCall(n *ast.CallExpr) (Val, bool) {
 			return e.callSpec(sf, args)
 		}
 		return e.fail("unknown function %s in contract", id.Name)
+	}
+	// pkg.F(args): a library or repository function declared pure
+	if sel, ok := n.Fun.(*ast.SelectorExpr); ok {
+		if id, ok := sel.X.(*ast.Ident); ok && !e.isVariable(id.Name) {
+			if _, bound := e.names[id.Name]; !bound {
+				if p := x.P.findPackage(id.Name, e.pkg); p != nil {
+					if f, ok := p.Scope().Lookup(sel.Sel.Name).(*types.Func); ok {
+						key := normName(x.P.funcName(f))
+						fc := x.P.C.Funcs[key]
+						if fc == nil || !fc.Pure {
+							return e.fail("function %s is not declared pure", key)
+						}
+						args, ok := e.evalArgs(n.Args)
+						if !ok {
+							return Val{}, false
+						}
+						sig := f.Type().(*types.Signature)
+						if sig.Results().Len() != 1 || leavesOf(sig.Results().At(0).Type()) == nil {
+							return e.fail("pure function %s must have one scalar result", key)
+						}
+						var argTerms []Term
+						for _, a := range args {
+							argTerms = append(argTerms, x.flatTerms(a)...)
+						}
+						if !fc.Stable {
+							argTerms = append(argTerms, x.heapStamp(e.st))
+						}
+						rt := sig.Results().At(0).Type()
+						return x.valFromLeaves(rt, func(l leaf) Term {
+							return x.uf(fmt.Sprintf("pure!%s!0%s", key, l.suffix), l.sort, argTerms...)
+						}), true
+					}
+				}
+			}
+		}
 	}
 	// method call on a value: pure methods only
 	if sel, ok := n.Fun.(*ast.SelectorExpr); ok {
